@@ -124,7 +124,9 @@ def check_curve(c, label, pts, fvals, pmin, preq, e, wit, tol=1e-7):
         elif p >= preq:
             c.count('points_above_preq')
             if abs(f - 1.0) > slope_term:
-                c.violate('pdd_not_full_above_preq', '%s: p = %.6f >= Preq = %.4f but delivered fraction is %.12g' % (label, p, preq, f), pressure=p, f=f, **wit)
+                # with overlapping bands (Preq < Pmin + band width) the lower-band branch of the row still matches above Preq
+                c.violate('pdd_not_full_above_preq_bands_overlap' if narrow and p <= lo_b + 1e-12 else 'pdd_not_full_above_preq',
+                          '%s: p = %.6f >= Preq = %.4f but delivered fraction is %.12g' % (label, p, preq, f), pressure=p, f=f, **wit)
                 return
         elif not narrow and lo_b <= p <= hi_b:
             c.count('points_on_power_law')
